@@ -336,6 +336,11 @@ func checkC01(w *core.W) {
 					continue
 				}
 				b := b
+				if a.Gen > 0 && b.Gen > 0 && !c.collide(a, b) {
+					// thorough tier bound: two computed states are paired only when they share a member or an @ key
+					w.Count("pairs_of_two_computed_states_skipped_noncolliding", 1)
+					continue
+				}
 				for _, op := range rsx.ExpOps {
 					o := ex.Apply(op, a, b.V)
 					visit(op, a, b, o)
@@ -426,7 +431,7 @@ func checkC01(w *core.W) {
 func roundsC01(tier string) int { return 2 }
 
 var C01 = core.Check{
-	ID: "C01", Level: "model_checking", Fn: checkC01, Rounds: roundsC01, Watchdog: 0,
-	Rule:   "explicit-state search over reachable representations (states = distinct concrete representations by rel.VerifShape; generation 0 = every construction path of every set of <=2 members over the 36-member alphabet plus sugar literals; generation 1 = operator results within the size bound: one state per (shape class, producing operator) in the quick tier, all of them in the thorough tier); transitions = | & &~ ~~ and the 12 subset comparisons on all ordered pairs of states, with/without/<:/!<: with every alphabet member, count/where/=>/^ per state; each transition's result is compared by denotation with the reference model and re-checked for self-consistency; non-trivial = both operands non-empty and sharing a member or an @ key (forced collision)",
+	ID: "C01", Level: "model_checking", Fn: checkC01, Rounds: roundsC01, Watchdog: 300 * time.Second,
+	Rule:   "explicit-state search over reachable representations (states = distinct concrete representations by rel.VerifShape; generation 0 = every construction path of every set of <=2 members over the 36-member alphabet plus sugar literals; generation 1 = operator results within the size bound: one state per (shape class, producing operator) in the quick tier, all of them in the thorough tier); transitions = | & &~ ~~ and the 12 subset comparisons on all ordered pairs of states (two generation-1 states only when they share a member or an @ key), with/without/<:/!<: with every alphabet member, count/where/=>/^ per state; each transition's result is compared by denotation with the reference model and re-checked for self-consistency; non-trivial = both operands non-empty and sharing a member or an @ key (forced collision)",
 	Assume: []string{"reference model of finite sets (harness/model) is correct", "rel.VerifShape distinguishes representations (used only to deduplicate states, never as an oracle)", "values beyond the size bound are checked as results but not expanded"},
 }
